@@ -69,7 +69,8 @@ func (e *Environment) evalNameWithIndex(name string) []string {
 }
 
 // expandNameWithIndex expands the aliases in the name, expanding keeps track
-// of the aliases being expanded because an alias can refer to itself
+// of the aliases that were expanded: an alias can refer to itself, and expanding
+// the same alias once per occurrence takes exponential time on a chain of aliases
 func (e *Environment) expandNameWithIndex(name string, expanding map[string]bool) []string {
 	names := strings.Split(name, ".")
 	for _, n := range names {
@@ -81,8 +82,6 @@ func (e *Environment) expandNameWithIndex(name string, expanding map[string]bool
 		expanding[n] = true
 
 		names = append(names, e.expandNameWithIndex(alias, expanding)...)
-
-		delete(expanding, n)
 	}
 
 	return names
